@@ -453,6 +453,67 @@ theorem code_matches_model :
        "if wait == 0 { r.setResponse() }"] := by
   refine ⟨rfl, rfl, rfl, rfl, rfl, rfl, rfl, rfl, rfl, rfl, rfl⟩
 
+/-! ### added: completion / composition -/
+theorem quit_stays (s s' : Cl) (l : Label) (hq : s.quit = true) (hs : step s l = some s') : s'.quit = true := by
+  cases l <;> simp only [step] at hs <;> (repeat' split at hs) <;> (try cases hs) <;> simp_all [answer]
+
+theorem run_append (s : Cl) (a b : List Label) :
+    run s (a ++ b) = (run s a).bind fun s1 => run s1 b := by
+  induction a generalizing s with
+  | nil => rfl
+  | cons l ls ih =>
+    simp only [List.cons_append, run]
+    cases step s l with
+    | none => rfl
+    | some s1 => exact ih s1
+
+theorem quit_stays_run (ls : List Label) : ∀ (s s' : Cl), s.quit = true → run s ls = some s' → s'.quit = true := by
+  induction ls with
+  | nil => intro s s' hq h; simp [run] at h; subst h; exact hq
+  | cons l ls ih =>
+    intro s s' hq h
+    simp only [run] at h
+    cases hs : step s l with
+    | none => simp [hs] at h
+    | some s1 => simp only [hs] at h; exact ih s1 s' (quit_stays s s1 l hq hs) h
+
+theorem mu_decreases_run (ls : List Label) (hint : ∀ l ∈ ls, internal l = true) :
+    ∀ (s s' : Cl), run s ls = some s' → mu s' + ls.length ≤ mu s := by
+  induction ls with
+  | nil => intro s s' h; simp [run] at h; subst h; simp
+  | cons l ls ih =>
+    intro s s' h
+    simp only [run] at h
+    cases hs : step s l with
+    | none => simp [hs] at h
+    | some s1 =>
+      simp only [hs] at h
+      have h1 := internal_step_decreases s s1 l (hint l (by simp)) hs
+      have h2 := ih (fun x hx => hint x (by simp [hx])) s1 s' h
+      simp only [List.length_cons]; omega
+
+/-- **Shutdown completes under every schedule.** From any reachable state in which the quit latch
+is closed, let the connection's own goroutines run in any order, with no further Send calls:
+they cannot take more than `mu s` steps, and when none of them can move any more Start has
+returned — so Stop returns and (by `all_answered_when_done`) every request has its one answer.
+No fairness assumption is needed: every schedule is finite and ends there. -/
+theorem shutdown_completes (cap : Nat) (pre : List Label) (s : Cl) (h : run (init cap) pre = some s)
+    (hq : s.quit = true) (ls : List Label) (hint : ∀ l ∈ ls, internal l = true) (s' : Cl)
+    (hrun : run s ls = some s') :
+    ls.length ≤ mu s ∧ ((∀ l, internal l = true → step s' l = none) → s'.done = true) := by
+  constructor
+  · have := mu_decreases_run ls hint s s' hrun; omega
+  · intro hstuck
+    have hreach : run (init cap) (pre ++ ls) = some s' := by
+      rw [run_append, h]; exact hrun
+    have hq' := quit_stays_run ls s s' hq hrun
+    cases hd : s'.done with
+    | true => rfl
+    | false =>
+      obtain ⟨l, hl, hen⟩ := progress_after_quit cap (pre ++ ls) s' hreach hq' hd
+      rw [hstuck l hl] at hen
+      cases hen
+
 end SamVerif.Props.C02
 
 #print axioms SamVerif.Props.C02.answered_at_most_once
@@ -465,3 +526,4 @@ end SamVerif.Props.C02
 #print axioms SamVerif.Props.C02.old_writer_drops_request
 #print axioms SamVerif.Props.C02.old_send_races_drain
 #print axioms SamVerif.Props.C02.code_matches_model
+#print axioms SamVerif.Props.C02.shutdown_completes
